@@ -197,8 +197,8 @@ def main():
             ck.extra['orthogonality'] = {k: info[k] for k in ('pairs', 'phi_certs', 'theta_certs', 'non_orthogonal')}
     if res is not None:
         ck.step_prove('P_C17')
-    n = 900 if ck.thorough() else 45
-    goals = run_cases(ck, res, n, 25 if ck.thorough() else 5)
+    n = 4500 if ck.thorough() else 45
+    goals = run_cases(ck, res, n, 60 if ck.thorough() else 5)
     if res is not None:
         ck.step_interval_goals('corr', goals)
     if ck.broken and not ck.failures:
